@@ -47,6 +47,9 @@ pub struct KindInfo {
     pub ops: u16,
     /// allowed end operations (bit mask over END_*)
     pub ends: u8,
+    /// the wrapped iterator's exact-looking size hint over-promises: only the permanence clauses of the
+    /// length queries are checked (No after the end was reported / after skip_to_end)
+    pub lying: bool,
     /// concrete chunk size for buffered iterators (0 = symbolic in [1, nmax]); a symbolic size makes the
     /// wrapper's buffer allocation symbolic, which CBMC handles very badly
     pub nbuf: usize,
@@ -238,6 +241,9 @@ fn check_len<I: ConcurrentIter>(it: &I, m: &Model, info: &KindInfo) {
             h == HasMore::No,
             "C11 C05: has_more must be No after a pull reported the end"
         );
+    }
+    if info.lying {
+        return;
     }
     if info.sized {
         assert!(
